@@ -75,6 +75,8 @@ pub struct Interp<'i> {
     input: &'i [u8],
     pos: usize,
     pub out: Vec<Out>,
+    /// number of output items already produced at each executed `listen` (for the I/O order oracle)
+    pub listen_at: Vec<usize>,
     steps: u64,
     loop_depth: usize,
     limits: Limits,
@@ -110,6 +112,25 @@ fn expr_has_call(e: &Expr) -> bool {
         Expr::Prim(p) => prim_has_call(p),
         Expr::Bin(_, l, rs) => expr_has_call(l) || rs.iter().any(expr_has_call),
         Expr::Un(_, x) => expr_has_call(x),
+    }
+}
+
+fn prim_has_pronoun(p: &Prim) -> bool {
+    match p {
+        Prim::Lit(_) => false,
+        Prim::Ident(Ident::Pronoun) => true,
+        Prim::Ident(_) => false,
+        Prim::Sub(a, i) => prim_has_pronoun(a) || prim_has_pronoun(i),
+        Prim::Call(_, args) => args.iter().any(expr_has_pronoun),
+        Prim::Pop(x) => prim_has_pronoun(x),
+    }
+}
+
+fn expr_has_pronoun(e: &Expr) -> bool {
+    match e {
+        Expr::Prim(p) => prim_has_pronoun(p),
+        Expr::Bin(_, l, rs) => expr_has_pronoun(l) || rs.iter().any(expr_has_pronoun),
+        Expr::Un(_, x) => expr_has_pronoun(x),
     }
 }
 
@@ -156,6 +177,23 @@ fn target_of_prim(p: &Prim) -> Option<Target<'_>> {
     }
 }
 
+/// why a primary expression cannot be written through
+fn untargetable(p: &Prim) -> Stop {
+    fn root(p: &Prim) -> &Prim {
+        match p {
+            Prim::Sub(a, _) => root(a),
+            x => x,
+        }
+    }
+    if prim_has_call(p) {
+        Stop::Unspec("U-order: writing through a call result (error vs. output of the call)")
+    } else if let Prim::Pop(_) = root(p) {
+        Stop::Unspec("U-stray: writing through the result of a roll")
+    } else {
+        Stop::Error("value not writable")
+    }
+}
+
 fn target_of_lhs(l: &Lhs) -> Option<Target<'_>> {
     match l {
         Lhs::Ident(i) => Some(Target { root: i, subs: Vec::new() }),
@@ -177,6 +215,7 @@ impl<'i> Interp<'i> {
             input,
             pos: 0,
             out: Vec::new(),
+            listen_at: Vec::new(),
             steps: 0,
             loop_depth: 0,
             limits,
@@ -267,12 +306,18 @@ impl<'i> Interp<'i> {
         if t.subs.iter().any(|s| prim_has_effect(s)) {
             return Err(Stop::Unspec("U-order: side effect inside the subscript of a written element"));
         }
+        if t.subs.len() >= 2 && t.subs.iter().any(|s| prim_has_pronoun(s)) {
+            return Err(Stop::Unspec("U-pronoun: pronoun inside one of several subscripts of a written element"));
+        }
+        let mut sub_names = Vec::new();
+        t.subs.iter().for_each(|s| prim_names(s, &mut sub_names));
+        if matches!(t.root, Ident::Pronoun) && !sub_names.is_empty() {
+            return Err(Stop::Unspec("U-pronoun: written pronoun whose subscripts name variables"));
+        }
         let mut keys = Vec::new();
         for s in &t.subs {
             keys.push(self.eval_prim(s)?);
         }
-        let mut sub_names = Vec::new();
-        t.subs.iter().for_each(|s| prim_names(s, &mut sub_names));
         let root_key = match t.root {
             Ident::Name(n) => Some(n.key()),
             Ident::Pronoun => None,
@@ -342,7 +387,7 @@ impl<'i> Interp<'i> {
             Prim::Call(n, args) => self.call(n, args),
             Prim::Pop(t) => match target_of_prim(t) {
                 Some(t) => self.with_target(t, |slot| pop(slot)),
-                None => Err(Stop::Error("value not writable")),
+                None => Err(untargetable(t)),
             },
         }
     }
@@ -466,6 +511,7 @@ impl<'i> Interp<'i> {
     }
 
     fn read_line(&mut self) -> R<String> {
+        self.listen_at.push(self.out.len());
         let rest = &self.input[self.pos..];
         let (line, used) = match rest.iter().position(|b| *b == b'\n') {
             Some(p) => (&rest[..p], p + 1),
@@ -598,7 +644,7 @@ impl<'i> Interp<'i> {
                             *slot = r;
                             Ok(())
                         })?,
-                        None => return Err(Stop::Error("value not writable")),
+                        None => return Err(untargetable(operand)),
                     },
                 }
             }
@@ -609,12 +655,7 @@ impl<'i> Interp<'i> {
                         *slot = r;
                         Ok(())
                     })?,
-                    None => {
-                        if prim_has_call(p) {
-                            return Err(Stop::Unspec("U-order: rounding a call result (error vs. output of the call)"));
-                        }
-                        return Err(Stop::Error("value not writable"));
-                    }
+                    None => return Err(untargetable(p)),
                 },
                 e => {
                     if expr_has_call(e) {
@@ -643,23 +684,13 @@ impl<'i> Interp<'i> {
                 };
                 match target_of_prim(array) {
                     Some(t) => self.with_target(t, move |slot| push(slot, vals))?,
-                    None => {
-                        if prim_has_call(array) {
-                            return Err(Stop::Unspec("U-order: rock of a call result"));
-                        }
-                        return Err(Stop::Error("value not writable"));
-                    }
+                    None => return Err(untargetable(array)),
                 }
             }
             Stmt::Pop { array, dest } => {
                 let v = match target_of_prim(array) {
                     Some(t) => self.with_target(t, |slot| pop(slot))?,
-                    None => {
-                        if prim_has_call(array) {
-                            return Err(Stop::Unspec("U-order: roll of a call result"));
-                        }
-                        return Err(Stop::Error("value not writable"));
-                    }
+                    None => return Err(untargetable(array)),
                 };
                 if let Some(d) = dest {
                     self.write_lhs(d, v)?;
